@@ -294,3 +294,117 @@ func TestConcurrent(t *testing.T) {
 		}
 	}
 }
+
+// TestConcStorm (C11): cancellation storms.  One asking socket (SURVEYOR / REQ) with several contexts that
+// issue the next survey / request without waiting for the answers to the last one (each Send cancels the
+// previous one; survey and retry timers of a millisecond fire in between), many answering peers echoing as
+// fast as they can, and option reads on the asking socket - so that answers to an operation arrive while it
+// is being cancelled by a newer Send, by its timer or by Close.  Nothing is recorded: the process must
+// survive (a panic in a library goroutine, a deadlock or a data race is the report).
+func TestConcStorm(t *testing.T) {
+	dur := 1200 * time.Millisecond
+	if thorough() {
+		dur = 6 * time.Second
+	}
+	type storm struct {
+		name   string
+		asker  func() (mangos.Socket, error)
+		answer func() (mangos.Socket, error)
+	}
+	for si, st := range []storm{{"survey", surveyor.NewSocket, respondent.NewSocket}, {"req", req.NewSocket, rep.NewSocket}} {
+		a, err := st.asker()
+		if err != nil {
+			t.Fatal(err)
+		}
+		_ = a.SetOption(mangos.OptionSurveyTime, time.Millisecond)
+		_ = a.SetOption(mangos.OptionRetryTime, time.Millisecond)
+		_ = a.SetOption(mangos.OptionRecvDeadline, time.Millisecond)
+		_ = a.SetOption(mangos.OptionSendDeadline, 5*time.Millisecond)
+		addr := fmt.Sprintf("inproc://storm-%d-%d", os.Getpid(), si)
+		if err := a.Listen(addr); err != nil {
+			t.Fatal(err)
+		}
+		var stop atomic.Bool
+		var wg sync.WaitGroup
+		var peers []mangos.Socket
+		var nans, nask atomic.Int64
+		for i := 0; i < 8; i++ {
+			p, err := st.answer()
+			if err != nil {
+				t.Fatal(err)
+			}
+			_ = p.SetOption(mangos.OptionRecvDeadline, 5*time.Millisecond)
+			_ = p.SetOption(mangos.OptionSendDeadline, 5*time.Millisecond)
+			if err := p.Dial(addr); err != nil {
+				t.Fatal(err)
+			}
+			peers = append(peers, p)
+			wg.Add(1)
+			go func() {
+				defer wg.Done()
+				for !stop.Load() {
+					m, err := p.RecvMsg()
+					if err != nil {
+						continue
+					}
+					if p.SendMsg(m) != nil {
+						m.Free()
+					} else {
+						nans.Add(1)
+					}
+				}
+			}()
+		}
+		for i := 0; i < 4; i++ {
+			c, err := a.OpenContext()
+			if err != nil {
+				t.Fatal(err)
+			}
+			i := i
+			wg.Add(1)
+			go func() {
+				defer wg.Done()
+				for k := 0; !stop.Load(); k++ {
+					if c.Send([]byte{byte(k), byte(i)}) == nil {
+						nask.Add(1)
+					}
+					if (k+i)%3 == 0 {
+						if m, err := c.RecvMsg(); err == nil {
+							m.Free()
+						}
+					}
+					if k%1000 == 999 && i == 3 {
+						// now and then a context goes away in the middle of it all and a new one takes over
+						_ = c.Close()
+						if c, err = a.OpenContext(); err != nil {
+							return
+						}
+					}
+				}
+			}()
+		}
+		wg.Add(1)
+		go func() {
+			defer wg.Done()
+			for !stop.Load() {
+				_, _ = a.GetOption(mangos.OptionSurveyTime)
+				_ = a.SetOption(mangos.OptionReadQLen, 1+int(nask.Load()%4))
+			}
+		}()
+		time.Sleep(dur)
+		// Close with everything still in flight
+		_ = a.Close()
+		stop.Store(true)
+		for _, p := range peers {
+			_ = p.Close()
+		}
+		done := make(chan struct{})
+		go func() { wg.Wait(); close(done) }()
+		select {
+		case <-done:
+		case <-time.After(20 * time.Second):
+			t.Fatalf("storm %s: goroutines did not come back after Close:\n%s", st.name, sim.FilterStacks(sim.Stacks()))
+		}
+		t.Logf("storm %s: %d asked, %d answered", st.name, nask.Load(), nans.Load())
+	}
+}
